@@ -188,6 +188,15 @@ def encRows (m : Array (Nat × Nat)) (nSegments : Nat) : Nat → Nat → List Se
         | none => none
         | some (rows, g) => some ((start % 65536, end_ % 65536, 0, off) :: rows, chunk ++ g)
 
+/-- "add the final segment" and `Self::format_4(0, end_code, start_code, id_deltas,
+id_range_offsets, glyph_ids)` -/
+def Cmap4.ofRows (rows : List Row) (g : List Nat) : Cmap4 :=
+  { endCode := (rows.map Row.end_ ++ [0xFFFF]).toArray
+    startCode := (rows.map Row.start ++ [0xFFFF]).toArray
+    idDelta := (rows.map Row.delta ++ [1]).toArray
+    idRangeOffsets := (rows.map Row.off ++ [0]).toArray
+    glyphIdArray := g.toArray }
+
 /-- result of a builder step -/
 inductive Res (α : Type) where
   | ok : α → Res α
@@ -201,13 +210,7 @@ def encode4 (m : Mapping) (segs : List Seg) : Res (Option Cmap4) :=
   else
     match encRows m.toArray (segs.length + 1) 0 0 segs with
     | none => .trap
-    | some (rows, g) =>
-      .ok (some {
-        endCode := (rows.map Row.end_ ++ [0xFFFF]).toArray
-        startCode := (rows.map Row.start ++ [0xFFFF]).toArray
-        idDelta := (rows.map Row.delta ++ [1]).toArray
-        idRangeOffsets := (rows.map Row.off ++ [0]).toArray
-        glyphIdArray := g.toArray })
+    | some (rows, g) => .ok (some (Cmap4.ofRows rows g))
 
 def createFormat4 (m : Mapping) : Res (Option Cmap4) := encode4 m (segments m)
 
